@@ -46,14 +46,22 @@ def run(ctx):
             for d in (mutate.all_bitflips(data, 6 if ctx.quick else 64)): add(n, syn, d, "flip")
             for d in mutate.surgery(data, ctx.rng, 8 if ctx.quick else 60): add(n, syn, d, "surgery")
         # splices of two encodings and random bytes, against every type
-        names = [n for n, _ in m["types"]]
+        # admissible (type, syntax) pairs (e.g. no UPER/OER decoding of types containing SET: F32)
+        pairs = []
+        for n, t in m["types"]:
+            feats = gfind.features(t, env)
+            if "named_unsigned_noconstraint" in feats: continue
+            pairs += [(n, syn) for syn in c01.SYNTAXES if not c01.skip_region(syn, feats, collections.Counter())]
         for _ in range(40 if ctx.quick else 400):
-            if len(corpus) >= 2:
+            if len(corpus) >= 2 and pairs:
                 a, c = ctx.rng.choice(corpus), ctx.rng.choice(corpus)
                 cut = ctx.rng.randrange(len(a[2]) + 1)
-                add(ctx.rng.choice(names), a[1], a[2][:cut] + c[2], "splice")
+                cand = [p for p in pairs if p[1] == a[1]]
+                if cand: add(ctx.rng.choice(cand)[0], a[1], a[2][:cut] + c[2], "splice")
         for d in mutate.randoms(ctx.rng, 60 if ctx.quick else 600):
-            add(ctx.rng.choice(names), ctx.rng.choice(c01.SYNTAXES), d, "random")
+            if pairs:
+                n, syn = ctx.rng.choice(pairs)
+                add(n, syn, d, "random")
         outs, crashes = ctx.run_c_bisect(exe, lines, timeout=900)
         for l, o, (n, syn, size, kind) in zip(lines, outs, lmeta):
             stats["cases"] += 1; stats["kind:" + kind] += 1
@@ -81,6 +89,12 @@ def run(ctx):
         txt, n, l, o, why, syn = f
         if "INTEGER_decode_oer" in o or ("INTEGER_oer.c" in o):
             if ctx.match_finding(lambda k: k["id"] == "F5"): continue
+        if "UniversalString.c:100" in o and "left shift" in o:
+            if ctx.match_finding(lambda k: k["id"] == "F50"): continue
+        if "OCTET_STRING.c:587" in o and "shift exponent" in o:
+            if ctx.match_finding(lambda k: k["id"] == "F52"): continue
+        if "OCTET_STRING.c:1224" in o and "shift exponent" in o:
+            if ctx.match_finding(lambda k: k["id"] == "F71"): continue
         if "stack-overflow" in o and "_constraint" in o:
             if ctx.match_finding(lambda k: k["id"] == "F48"): continue
         unexplained.append(f)
